@@ -130,6 +130,23 @@ where
             honest_blind_proof::<CS>(h, &pk, &run, hdr.as_deref(), None, &msgs, &cmsgs, &d, &dc, false);
         }
     }
+    // shapes that need MANY random scalars in one operation, with the production randomness (record mode):
+    // commit draws M + 2, blind_proof_gen 5 + U
+    let many: &[(usize, usize)] = if thorough { &[(2, 170), (120, 48), (1, 260), (0, 1400)] } else { &[(2, 170), (120, 48)] };
+    for &(l, m) in many {
+        let (sk, pk) = rand_keypair::<CS>(h);
+        let msgs = rand_msgs(h, l);
+        let cmsgs = rand_msgs(h, m);
+        let hdr = rand_header(h);
+        h.stat(&format!("C05.many_scalars.L={}.M={}", l, m));
+        match honest_issue::<CS>(h, &sk, &pk, hdr.as_deref(), &msgs, &cmsgs, false) {
+            Some(run) => {
+                let d: Vec<usize> = if l > 1 { vec![0, 1] } else { vec![] };
+                honest_blind_proof::<CS>(h, &pk, &run, hdr.as_deref(), None, &msgs, &cmsgs, &d, &[], false);
+            }
+            None => h.expect(false, "C05.many_scalars", &format!("the blind issuance flow failed for L = {}, M = {} with the production randomness", l, m), &[h.last()]),
+        }
+    }
     // no commitment at all: blind_sign(None / empty) verifies with no committed messages and no blind
     for l in [0usize, 1, 3] {
         let msgs = rand_msgs(h, l);
@@ -241,6 +258,18 @@ where
                 h.expect(!d.is_ok(), "C06.small_order_decode", "Commitment::from_bytes decoded a commitment that is not in the prime-order group", &[h.last()]);
                 let v = devc::<CS>(h, Some(&cwp), 1);
                 h.expect(!v.is_ok(), "C06.small_order_validate", "deserialize_and_validate_commit accepted a commitment that is not in the prime-order group", &[h.last()]);
+            }
+        }
+        // a whole 32-octet slot that is NOT a canonical scalar inserted at every scalar boundary
+        {
+            let r_be: [u8; 32] = [0x73, 0xed, 0xa7, 0x53, 0x29, 0x9d, 0x7d, 0x48, 0x33, 0x39, 0xd8, 0x08, 0x09, 0xa1, 0xd8, 0x05, 0x53, 0xbd, 0xa4, 0x02, 0xff, 0xfe, 0x5b, 0xfe, 0xff, 0xff, 0xff, 0xff, 0x00, 0x00, 0x00, 0x01];
+            for slot in [[0xffu8; 32], r_be] {
+                for off in (48..=run.cwp.len()).step_by(32) {
+                    let mut t = run.cwp[..off].to_vec();
+                    t.extend_from_slice(&slot);
+                    t.extend_from_slice(&run.cwp[off..]);
+                    refuse(h, "noncanonical_slot", &t);
+                }
             }
         }
         // bit flips of the commitment-with-proof
